@@ -6,6 +6,7 @@ pub mod common;
 pub mod mempipe;
 pub mod noisekit;
 pub mod sworld;
+pub mod nodes;
 pub mod mgrx;
 
 pub mod c01;
@@ -13,10 +14,12 @@ pub mod c02;
 pub mod c03;
 pub mod c04;
 pub mod c08;
+pub mod c13;
 pub mod c14;
 pub mod c15;
 pub mod c17;
 pub mod c18;
+pub mod c20;
 
 use common::{Ctx, Report};
 
@@ -31,10 +34,12 @@ pub fn run_property(prop: &str, ctx: &Ctx) -> Option<Report> {
         "C10" => mgrx::run(ctx, "C10"),
         "C08" => c08::run(ctx, "C08"),
         "C09A" => c08::run(ctx, "C09"),
+        "C13" => c13::run(ctx),
         "C14" => c14::run(ctx),
         "C15" => c15::run(ctx),
         "C17" => c17::run(ctx),
         "C18" => c18::run(ctx),
+        "C20" => c20::run(ctx),
         _ => return None,
     })
 }
